@@ -219,6 +219,31 @@ def check_tables(ctx):
            'nothing else does' % len(want), not missing and not wrong and not extra, loc=loc_of('_HEX_CHAR_MAP'),
            detail='missing %s wrong %s extra %s' % (missing[:6], wrong[:6], extra[:6]))
     check_unquote_to_bytes(ctx, prog.func(MOD + '.unquote_to_bytes'))
+    check_unquote_text(ctx, prog.func(MOD + '.unquote'))
+
+
+def _minimal_polarity(ctx, qf, body_fn, delims_name, map_name, via=''):
+    """Minimal quoting: a character IN the component's delimiter set goes through the quote map, any other is kept."""
+    found = 0
+    for n in ast.walk(body_fn.node):
+        if not isinstance(n, ast.IfExp):
+            continue
+        e, neg = n.test, False
+        while isinstance(e, ast.UnaryOp) and isinstance(e.op, ast.Not):
+            neg = not neg
+            e = e.operand
+        if not (isinstance(e, ast.Compare) and len(e.ops) == 1 and isinstance(e.ops[0], (ast.In, ast.NotIn)) and
+                txt(e.comparators[0]) == delims_name):
+            continue
+        found += 1
+        var = txt(e.left)
+        in_is_body = (isinstance(e.ops[0], ast.In)) != neg
+        inb, outb = (n.body, n.orelse) if in_is_body else (n.orelse, n.body)
+        ok = isinstance(inb, ast.Subscript) and txt(inb.value) == map_name and txt(inb.slice) == var and txt(outb) == var
+        ctx.ob('T12.polarity', qf.fq, 'minimal quoting escapes exactly the characters of the delimiter set (a delimiter goes through the '
+               'quote map, any other character is kept)' + via, ok, loc='%s:%d' % (body_fn.module.relpath, n.lineno),
+               detail='in-branch %s, other branch %s' % (txt(inb), txt(outb)))
+    return found
 
 
 def check_quote_shape(ctx, qf, names):
@@ -255,6 +280,7 @@ def check_quote_shape(ctx, qf, names):
                                   txt(n.comparators[0]) == inv.get(names['delims'], '?') for n in ast.walk(callee.node))
                 ctx.ob('T12.shape', qf.fq, 'full quoting maps every byte of the UTF-8 encoding through the quote map, minimal quoting only the '
                        'component\'s delimiters' + via, has_full and bool(enc) and uses_map and uses_delims, loc=qf.loc)
+                _minimal_polarity(ctx, qf, callee, inv.get(names['delims'], '?'), inv.get(names['map'], '?'), via)
                 return
     has_full = any(isinstance(n, (ast.If, ast.IfExp)) and txt(n.test) == 'full_quote' for n in ast.walk(qf.node))
     enc = [n for n in ast.walk(qf.node) if isinstance(n, ast.Call) and isinstance(n.func, ast.Attribute)
@@ -264,6 +290,7 @@ def check_quote_shape(ctx, qf, names):
         raise AnalysisError('%s: neither a full_quote branch nor a recognised delegation to a shared helper' % qf.fq)
     ctx.ob('T12.shape', qf.fq, 'full quoting maps every byte of the UTF-8 encoding through the quote map '
            '(branch on full_quote present, utf-8 encode present)', has_full and bool(enc), loc=qf.loc)
+    _minimal_polarity(ctx, qf, qf, names['delims'], names['map'])
 
 
 def check_make_quote_map(ctx, fn):
@@ -344,6 +371,40 @@ def check_make_quote_map(ctx, fn):
     ctx.ob('T12.qmap', fn.fq, 'unsafe byte b -> "%" + two UPPER-case hex digits of b, safe -> itself, for all 256 bytes',
            ok_range and fmt_ok and branch_ok, loc=fn.loc,
            detail='range(256): %s; %s; branch on membership in %s: %s' % (ok_range, detail, fn.params[0], branch_ok))
+
+
+def check_unquote_text(ctx, fn):
+    """unquote (text): the string is split into escape runs and the plain text between them; in every step of the rebuilding
+    loop BOTH pieces reach the output -- the escape run through unquote_to_bytes(...).decode(...), the plain piece as it is."""
+    from rules.common import paths_of as _po
+    w, paths = _po(ctx.program, fn)
+    n = 0
+    for p in paths:
+        ops = p.ops
+        bounds = [o.seq for o in ops if o.kind == 'iter_next' and o.info is True] + [10 ** 9]
+        for a, b in zip(bounds, bounds[1:]):
+            end = next((o.seq for o in ops if o.seq > a and o.kind == 'iter_next' and o.info is False), 10 ** 9)
+            seg = [o for o in ops if a < o.seq < min(b, end)]
+            vals = []
+            for o in seg:
+                if o.kind == 'call' and o.val.args and (
+                        (isinstance(o.val.func, ast.Attribute) and o.val.func.attr == 'append') or
+                        (isinstance(o.val.func, ast.Name) and w.tokens.get(o.val.func.id, ('',))[0] != 'call' and
+                         txt(w.expand(o.val.func)).endswith('.append'))):
+                    vals.append(txt(w.expand(o.val.args[0])))
+                elif o.kind == 'call' and isinstance(o.val.func, ast.Attribute) and o.val.func.attr == 'extend' and o.val.args and \
+                        isinstance(o.val.args[0], (ast.Tuple, ast.List)):
+                    vals += [txt(w.expand(x)) for x in o.val.args[0].elts]
+            if not vals:
+                continue
+            n += 1
+            dec = [v for v in vals if 'unquote_to_bytes(' in v]
+            raw = [v for v in vals if 'unquote_to_bytes(' not in v]
+            ok = len(dec) == 1 and len(raw) == 1
+            ctx.ob('T12.unqs', fn.fq, 'each step of the rebuilding loop emits the decoded escape run and the plain text that follows it',
+                   ok, loc=fn.loc, detail='emits %s' % vals, path=p.describe() if not ok else None)
+    if n == 0:
+        ctx.unknown('T12.unqs', fn.fq, 'no rebuilding loop with appends found', fn.loc)
 
 
 def check_unquote_to_bytes(ctx, fn):
